@@ -130,9 +130,23 @@ impl Drop for Model {
     }
 }
 
+thread_local! { pub static CATCHING: std::cell::Cell<u32> = const { std::cell::Cell::new(0) }; }
+
 /// Run a closure, mapping a panic to `None`.
 pub fn no_panic<T>(f: impl FnOnce() -> T) -> Option<T> {
-    std::panic::catch_unwind(std::panic::AssertUnwindSafe(f)).ok()
+    CATCHING.with(|c| c.set(c.get() + 1));
+    let r = std::panic::catch_unwind(std::panic::AssertUnwindSafe(f)).ok();
+    CATCHING.with(|c| c.set(c.get() - 1));
+    r
+}
+
+/// Panics of the code under test (inside `no_panic`) are silent; panics of the harness itself are printed.
+pub fn install_panic_hook() {
+    std::panic::set_hook(Box::new(|info| {
+        if CATCHING.with(|c| c.get()) == 0 {
+            eprintln!("harness panic: {}", info);
+        }
+    }));
 }
 
 #[derive(Default)]
@@ -178,7 +192,7 @@ impl Report {
             let clip = |s: &str| if s.len() > 300 { format!("{}…", &s[..300]) } else { s.to_string() };
             self.samples.push(serde_json::json!({"op": clip(line), "impl": clip(imp), "model": clip(model)}));
         }
-        if imp != model {
+        if imp.trim_end() != model.trim_end() {
             self.n_disagreements += 1;
             if self.disagreements.len() < 20 {
                 self.disagreements.push(serde_json::json!({"op": line, "impl": imp, "model": model}));
@@ -261,7 +275,7 @@ pub fn compare_batch(ctx: &mut Ctx, rep: &mut Report, batch: &mut Vec<(String, S
         rep.case(line, imp, m, *nt);
         // for `spec.*` ops the model's answer is the independent reference: a difference is a
         // failure of the property oracle, not only a correspondence break
-        if line.starts_with("spec.") && imp != m {
+        if line.starts_with("spec.") && imp.trim_end() != m.trim_end() {
             rep.oracle_fail("", line, &format!("implementation differs from the independent RFC reference: impl={} reference={}", clip(imp), clip(m)));
         }
     }
